@@ -8,6 +8,10 @@
                            vm_compute; reflexivity (coqreplay.run_examples)
   check_orders(recs)       the petgraph iteration orders assumed by the model against
                            the orders dumped by the harness (graph.out_order, graph.dfs_post)
+  line_bound(graph)        Render.lin_bound in Python: (7 + 3 * con_width) * E + 1, the proved
+                           bound on the number of lines (C04_render_lines_linear)
+  check_bounds(recs)       real line count <= line_bound, and line_bound == lin_bound of the
+                           extracted model
 
 Standalone:  python3 tools/props/render_tie.py --count 400 [--seed S] [--coq K]
 """
@@ -141,7 +145,7 @@ def unescape(s):
 
 
 def model_outputs(recs, timeout=1800):
-    """(message bytes, dfs post order, installable set, missing set) of the extracted model per record."""
+    """(message bytes, dfs post order, installable set, missing set, lin_bound) of the extracted model per record."""
     drv = build_driver()
     data = "\n".join(tokens(r) for r in recs) + "\n"
     p = subprocess.run([drv], input=data.encode(), stdout=subprocess.PIPE, stderr=subprocess.PIPE, timeout=timeout)
@@ -157,7 +161,7 @@ def model_outputs(recs, timeout=1800):
     for l in lines:
         f = l.split(b"\t")
         msg = unescape(f[0].decode("utf-8", errors="surrogateescape")).encode("utf-8", errors="surrogateescape")
-        out.append((msg, ints(f[1]), ints(f[2]), ints(f[3])))
+        out.append((msg, ints(f[1]), ints(f[2]), ints(f[3]), int(f[4])))
     return out
 
 
@@ -233,6 +237,52 @@ def check_orders(recs):
     return n, bad
 
 
+# ----------------------------------------------------------------- line bound
+
+def con_width(g):
+    """largest number of Constrains edges leaving the target of an edge (Render.con_width)"""
+    con = {}
+    for a, b, e in g["edges"]:
+        if isinstance(e, dict) and "con" in e:
+            con[a] = con.get(a, 0) + 1
+    return max([con.get(b, 0) for a, b, e in g["edges"]] or [0])
+
+
+def fine_bound(g):
+    """Render.fine_bound: 3 * sum over edges (2 + #Constrains edges of the target) + E + 1"""
+    con = {}
+    for a, b, e in g["edges"]:
+        if isinstance(e, dict) and "con" in e:
+            con[a] = con.get(a, 0) + 1
+    return 3 * sum(2 + con.get(b, 0) for a, b, e in g["edges"]) + len(g["edges"]) + 1
+
+
+def line_bound(g):
+    """Render.lin_bound of a dumped conflict graph: (7 + 3 * con_width g) * E + 1.
+    Proved: every message of the current renderer has at most this many lines
+    (Props/C04.v, C04_render_lines_linear). Linear in the number of edges for a fixed
+    con_width; con_width <= E gives the unconditional 3 E^2 + 7 E + 1."""
+    return (7 + 3 * con_width(g)) * len(g["edges"]) + 1
+
+
+def check_bounds(recs):
+    """Returns (n, violations, max_ratio): real line count against line_bound, Python
+    line_bound against lin_bound computed by the extracted model."""
+    recs = [r for r in recs if usable(r)]
+    outs = model_outputs(recs) if recs else []
+    bad, mx = [], 0.0
+    for r, mo in zip(recs, outs):
+        g = r["obs"]["conflict"]["graph"]
+        lines = r["obs"]["conflict"]["msg"].count("\n")
+        b = line_bound(g)
+        mx = max(mx, lines / b)
+        if mo[4] != b:
+            bad.append((r, "python line_bound %d != model lin_bound %d" % (b, mo[4])))
+        if lines > fine_bound(g) or fine_bound(g) > b:
+            bad.append((r, "message has %d lines, fine_bound %d, line_bound %d" % (lines, fine_bound(g), b)))
+    return len(recs), bad, mx
+
+
 # ----------------------------------------------------------------- standalone test
 
 def gather(count, seed, classes=("small", "dense", "conflict"), feat=255, extra_files=()):
@@ -294,6 +344,12 @@ def main():
     print(f"petgraph iteration orders (edges(n), DfsPostOrder) vs model: {n_ord} graphs, {len(bad_ord)} mismatches")
     for r, what, exp, got in bad_ord[:3]:
         print("--- order mismatch", what, "expected", exp, "got", got)
+    n_b, bad_b, mx = check_bounds(conf)
+    print(f"line counts vs proved bound (7 + 3*con_width)*E + 1: {n_b} messages, {len(bad_b)} violations, "
+          f"max lines/bound = {mx:.3f}")
+    for r, what in bad_b[:3]:
+        print("--- bound:", what, json.dumps(r["obs"]["conflict"]["graph"]))
+    bad_ord = bad_ord + bad_b
     rc = 1 if bad or bad_ord else 0
     if a.coq:
         t3 = time.time()
